@@ -727,7 +727,7 @@ def make_rm32(mnemonic, opcode, o):
     rm = Operand("rm", rm32_modes)
     syntax = Syntax([mnemonic, " ", rm], priority=2)
     members = {"syntax": syntax, "rm": rm, "opcode": opcode, "reg": o}
-    return type(mnemonic.title(), (RmBase,), members)
+    return type(mnemonic.title(), (RmBase32,), members)
 
 
 def make_rm16(mnemonic, opcode, o):
